@@ -129,7 +129,7 @@ def sample_spec_tangent(spec, rng, regime, ang=None):
         return out
     ang_scale = [mp.mpf(1), mp.mpf("1e-4"), mp.mpf("3e-8"), mp.mpf(0), mp.mpf("0.9"), mp.mpf("1e-9")][regime % 6]
     if regime % 11 == 9 or regime % 11 == 10:       # around the small-angle switch-overs
-        ang_scale = mp.mpf(10) ** mp.mpf(rng.uniform(-7.3, -6.0))
+        ang_scale = mp.mpf(10) ** mp.mpf(rng.uniform(-7.3, -3.6))
     lin_scale = [1, 1, 1e3, 1][(regime // 6) % 4]
     v = [mp.mpf(rng.uniform(-1, 1)) * lin_scale for _ in range(spec.dof)]
     slots = ANG_SLOTS.get(spec.name, [])
